@@ -121,7 +121,7 @@ fn c03_q_fill_buffer_pre2() {
 }
 #[kani::proof]
 #[kani::unwind(8)]
-fn c03_t_fill_buffer_pre3() {
+fn c03_q_fill_buffer_pre3() {
     fill_buffer_case::<3, 2, 5>()
 }
 #[kani::proof]
